@@ -271,6 +271,9 @@ class scrypt(  # type: ignore[misc]
             raise NotImplementedError(
                 "scrypt $7$ hashes dont support non-ascii salts"
             ) from None
+        if b"$" in salt:
+            # the salt is written as-is in front of the "$" that ends it
+            raise ValueError("scrypt $7$ salts can't contain '$'")
         return bascii_to_str(
             b"".join(
                 [
